@@ -15,7 +15,11 @@ func init() {
 			return []*Job{f4Job("narrow", "VerifNarrow", 2, []string{"ran"}, []string{"C10-then", "C10-else", "C10-after"},
 				"x = Sym.u (all 12 ordered pairs of distinct kinds out of NilClass/Integer/String/Bool, solver variables) tested by if/unless x [!] x.nil? / is_a?(Integer) / is_a?(String) with then/else/after probes; optionally an unrelated inner conditional or builtin call in the then-branch"),
 				f4Job("chain", "VerifNarrowChain", map[string]int{"quick": 1, "thorough": 2}[tier], []string{"ran"}, []string{"C10-chain-after-x", "C10-chain-later-conditional"},
-					"`if T1 && T2` for all pairs of the test forms nil?/!nil?/is_a?(Integer)/!is_a?(Integer) (thorough: + is_a?(String) forms), both on x = Sym.w (every ordered triple of distinct kinds out of NilClass/Integer/String; thorough + Bool) or on x = Sym.w and y = Sym.u; probes in the branch, after `end`, and in a later conditional on x")}
+					"`if T1 && T2` for all pairs of the test forms nil?/!nil?/is_a?(Integer)/!is_a?(Integer) (thorough: + is_a?(String) forms), both on x = Sym.w (every ordered triple of distinct kinds out of NilClass/Integer/String; thorough + Bool) or on x = Sym.w and y = Sym.u; probes in the branch, after `end`, and in a later conditional on x"),
+				f4Job("shapes", "VerifNarrowShapes", map[string]int{"quick": 1, "thorough": 2}[tier], []string{"ran"}, []string{"C10-s-then", "C10-s-after"},
+					"x = Sym.w (every ordering of NilClass/Integer/String) under 7 conditional shapes: if/elsif/else, a conditional nested in a branch, a method parameter, unless/else, a conditional inside a block, two conditionals in sequence, elsif testing a second variable; tests range over nil?/!nil?/is_a?(Integer)/!is_a?(Integer) (thorough: + is_a?(String) forms); every probe's expected type is computed from the guards above it"),
+				f4Job("objects", "VerifNarrowObjects", 0, []string{"ran"}, []string{"C10-o-then", "C10-o-after"},
+					"x = Sym.o, a union of NilClass and instances of two user classes Va / Vb in every order, under if T1 / elsif T2 / else for all 36 pairs of nil?, is_a?(Va), is_a?(Vb) and their negations; plus one concrete union with a container variant (Array<Integer> | String | Float) narrowed by is_a?(Array)")}
 		},
 		Custom:    replayKindsProgram,
 		Filter:    func(v *Violation) bool { return strings.HasPrefix(v.ID, "C10") },
